@@ -5,6 +5,7 @@ package main
 import (
 	"go/types"
 	"math/big"
+	"strings"
 
 	"golang.org/x/tools/go/ssa"
 )
@@ -62,6 +63,111 @@ func init() {
 		call := in.(ssa.CallInstruction)
 		return c.symbolic(st, call.Common().Signature().Results().At(0).Type(), "now")
 	}
+	// standard-library string helpers: executed natively when every argument is concrete
+	str2 := func(name string, f func(a, b string) Value) {
+		intrinsics[name] = func(c *Ctx, st *State, in ssa.Instruction, args []Value) Value {
+			a, ok1 := args[0].(StrV)
+			b, ok2 := args[1].(StrV)
+			if !ok1 || !ok2 || a.Conc == nil || b.Conc == nil {
+				if g, ok := symbolicStrIntrinsics[name]; ok {
+					return g(c, st, in, args)
+				}
+				unsupported("%s on symbolic strings", name)
+			}
+			return f(*a.Conc, *b.Conc)
+		}
+	}
+	str2("strings.HasPrefix", func(a, b string) Value { return BoolT(strings.HasPrefix(a, b)) })
+	str2("strings.HasSuffix", func(a, b string) Value { return BoolT(strings.HasSuffix(a, b)) })
+	str2("strings.Contains", func(a, b string) Value { return BoolT(strings.Contains(a, b)) })
+	intrinsics["strings.Index"] = func(c *Ctx, st *State, in ssa.Instruction, args []Value) Value {
+		a, ok1 := args[0].(StrV)
+		b, ok2 := args[1].(StrV)
+		if ok1 && ok2 && a.Conc != nil && b.Conc != nil {
+			return c.idx(int64(strings.Index(*a.Conc, *b.Conc)))
+		}
+		if g, ok := symbolicStrIntrinsics["strings.Index"]; ok {
+			return g(c, st, in, args)
+		}
+		unsupported("strings.Index on symbolic strings")
+		return nil
+	}
+	concStr := func(v Value) (string, bool) {
+		x, ok := v.(StrV)
+		if !ok || x.Conc == nil {
+			return "", false
+		}
+		return *x.Conc, true
+	}
+	concInt := func(v Value) (int, bool) {
+		t, ok := v.(*Term)
+		if !ok || !isNum(t) {
+			return 0, false
+		}
+		if t.Sort.Kind == SBV {
+			return int(bvSigned(t.Val, t.Sort.Bits).Int64()), true
+		}
+		return int(t.Val.Int64()), true
+	}
+	intrinsics["strings.Replace"] = func(c *Ctx, st *State, in ssa.Instruction, args []Value) Value {
+		a, ok1 := concStr(args[0])
+		b, ok2 := concStr(args[1])
+		d, ok3 := concStr(args[2])
+		n, ok4 := concInt(args[3])
+		if !(ok1 && ok2 && ok3 && ok4) {
+			unsupported("strings.Replace on symbolic arguments")
+		}
+		return conc(strings.Replace(a, b, d, n))
+	}
+	intrinsics["strings.ReplaceAll"] = func(c *Ctx, st *State, in ssa.Instruction, args []Value) Value {
+		a, ok1 := concStr(args[0])
+		b, ok2 := concStr(args[1])
+		d, ok3 := concStr(args[2])
+		if !(ok1 && ok2 && ok3) {
+			unsupported("strings.ReplaceAll on symbolic arguments")
+		}
+		return conc(strings.ReplaceAll(a, b, d))
+	}
+	for _, nm := range []string{"strings.TrimPrefix", "strings.TrimSuffix"} {
+		name := nm
+		intrinsics[name] = func(c *Ctx, st *State, in ssa.Instruction, args []Value) Value {
+			a, ok1 := concStr(args[0])
+			b, ok2 := concStr(args[1])
+			if !(ok1 && ok2) {
+				unsupported("%s on symbolic arguments", name)
+			}
+			if name == "strings.TrimPrefix" {
+				return conc(strings.TrimPrefix(a, b))
+			}
+			return conc(strings.TrimSuffix(a, b))
+		}
+	}
+	intrinsics["strings.ToLower"] = func(c *Ctx, st *State, in ssa.Instruction, args []Value) Value {
+		a, ok := args[0].(StrV)
+		if !ok || a.Conc == nil {
+			unsupported("strings.ToLower on a symbolic string")
+		}
+		return conc(strings.ToLower(*a.Conc))
+	}
+	intrinsics["strconv.Itoa"] = func(c *Ctx, st *State, in ssa.Instruction, args []Value) Value {
+		t := args[0].(*Term)
+		if isNum(t) {
+			v := t.Val
+			if t.Sort.Kind == SBV {
+				v = bvSigned(t.Val, t.Sort.Bits)
+			}
+			return conc(v.String())
+		}
+		return StrV{Spec: "itoa", SArgs: []Value{t}}
+	}
+	// sync primitives: ghost events (the lock discipline itself is checked by the C10/C19 obligations)
+	for _, n := range []string{"(*sync.Mutex).Lock", "(*sync.Mutex).Unlock", "(*sync.RWMutex).Lock", "(*sync.RWMutex).Unlock", "(*sync.RWMutex).RLock", "(*sync.RWMutex).RUnlock"} {
+		name := n
+		intrinsics[name] = func(c *Ctx, st *State, in ssa.Instruction, args []Value) Value {
+			st.CallLog = append(st.CallLog, CallRec{Callee: name, Args: args})
+			return nil
+		}
+	}
 	intrinsics["math.Inf"] = func(c *Ctx, st *State, in ssa.Instruction, args []Value) Value {
 		if !c.FP {
 			unsupported("math.Inf in real mode")
@@ -82,3 +188,6 @@ func init() {
 		return Ite(Cmp(">=", s, z, true), pos, mk("fp.neg", FPSort, pos))
 	}
 }
+
+// symbolicStrIntrinsics: models used when an argument is symbolic (filled in by the properties that need them).
+var symbolicStrIntrinsics = map[string]intrinsicFn{}
